@@ -78,7 +78,17 @@ H(op, slot, arg, exp) == [op |-> op, a |-> slot, arg |-> arg, exp |-> exp]
 Init == /\ \E t \in 1..Len(Toks) : az = <<New(t), None>> /\ hist = << H("new", 1, [t |-> t], [ok |-> TRUE]) >>
         /\ snap = [ok |-> FALSE] /\ round = 1 /\ stage = "add"
 
-DoAdd == /\ stage = "add"
+\* "loadreset": the round's content arrives as a snapshot made by a throw-away authorizer (slot 2) and LoadPolicies
+LoadContents == {Content(f, r, 0, p) : f \in 0..2, r \in 0..1, p \in 1..2}
+DoLoadRound == /\ stage = "add" /\ Shape = "loadreset"
+               /\ \E x \in LoadContents :
+                    LET helper == Add(New(az[1].tok), x) IN
+                    /\ az' = [az EXCEPT ![1] = AfterLoad(@, SnapOf(helper)), ![2] = helper]
+                    /\ hist' = hist \o << H("new", 2, [t |-> az[1].tok], [ok |-> TRUE]), H("add", 2, x, [ok |-> TRUE]),
+                                          H("save", 2, [x |-> 0], [ok |-> TRUE]), H("load", 1, [x |-> 0], [ok |-> TRUE]) >>
+               /\ stage' = "eval" /\ UNCHANGED <<snap, round>>
+
+DoAdd == /\ stage = "add" /\ Shape # "loadreset"
          /\ \E x \in Contents : az' = [az EXCEPT ![1] = Add(@, x)] /\ Log(H("add", 1, x, [ok |-> TRUE]))
          /\ stage' = "eval" /\ UNCHANGED <<snap, round>>
 
@@ -92,11 +102,11 @@ DoQuery(s, q) == /\ az' = [az EXCEPT ![s] = AfterQuery(@)]
 Eval == /\ stage = "eval"
         /\ \/ DoAuthorize(1)
            \/ \E q \in 1..Len(Queries) : DoQuery(1, q)
-        /\ stage' = IF round = Rounds_ THEN (IF Shape = "reset" THEN "final" ELSE "save") ELSE "reset"
+        /\ stage' = IF round = Rounds_ THEN (IF Shape \in {"reset", "loadreset"} THEN "final" ELSE "save") ELSE "reset"
         /\ UNCHANGED <<snap, round>>
 SkipEval == /\ stage = "eval" /\ Shape = "snapshot" /\ stage' = "save" /\ UNCHANGED <<az, snap, hist, round>>
 \* C13: content added but never evaluated before Reset
-SkipEvalReset == /\ stage = "eval" /\ Shape = "reset" /\ round < Rounds_ /\ stage' = "reset" /\ UNCHANGED <<az, snap, hist, round>>
+SkipEvalReset == /\ stage = "eval" /\ Shape \in {"reset", "loadreset"} /\ round < Rounds_ /\ stage' = "reset" /\ UNCHANGED <<az, snap, hist, round>>
 
 DoReset == /\ stage = "reset"
            /\ az' = [az EXCEPT ![1] = AfterReset(@)] /\ Log(H("reset", 1, [x |-> 0], [ok |-> TRUE]))
@@ -127,12 +137,12 @@ DoLoad == /\ stage = "load"
                                    \o << H("authorize", 1, [x |-> 0], [v |-> {VerdictOf(ProcOn(az[1]))}]) >>
           /\ stage' = "done" /\ UNCHANGED <<snap, round>>
 
-Next == DoAdd \/ Eval \/ SkipEval \/ SkipEvalReset \/ DoReset \/ Final \/ DoSave \/ DoLoad
+Next == DoAdd \/ DoLoadRound \/ Eval \/ SkipEval \/ SkipEvalReset \/ DoReset \/ Final \/ DoSave \/ DoLoad
 Spec == Init /\ [][Next]_vars
 
 -----------------------------------------------------------------------------
 \* C13: Reset restores exactly the state of a newly created authorizer
-ResetClean == stage = "add" => az[1] = New(az[1].tok)
+ResetClean == stage = "add" => [az[1] EXCEPT !.tok = 0] = [New(0) EXCEPT !.tok = 0] /\ az[1].wf = {} /\ az[1].c = <<>>
 \* C18: the restored authorizer decides like the original would for the same token (checked on equal tokens)
 SnapshotEquiv == stage = "done" /\ Shape = "snapshot" /\ snap.ok /\ az[2].tok # 0 /\ az[2].tok = az[1].tok =>
                     hist[Len(hist)].exp = hist[Len(hist) - Len(Queries) - 1].exp
